@@ -3,6 +3,8 @@ import importlib
 
 REGISTRY = {
     'C01': ('sim.props.c01', 'C01'),
+    'C02': ('sim.props.c02', 'C02'),
+    'C08': ('sim.props.c08', 'C08'),
 }
 
 
